@@ -55,6 +55,17 @@ def run_case(ctx, rng, case):
     labels = sorted(node.unsupported_kinds())
     if case % 700 == 0 or (unsupported and case % 500 == 2):
         ctx.sample({"pattern": pat, "unsupported": labels})
+    if case % 4 == 1:
+        # another generator with custom (subset) alphabets is built and used first: instances must not share state
+        try:
+            own = G.RegexGenerator(G.Random(), alphabet={"letters": "ab ", "digits": "123456789", "word": "abcxyz"})
+            for p2 in ("\\w+\\d.", "[^b]\\d"):
+                s2 = own.generate(p2)
+                ctx.count("custom_alphabet_generations")
+                if not re.fullmatch(p2, s2):
+                    ctx.violation("no_fullmatch:custom_alphabet", {"pattern": p2, "generated": s2})
+        except Exception as e:  # noqa
+            ctx.violation(f"custom_alphabet_generator_raised:{type(e).__name__}", {"exc": O.exc_info(e)})
     for max_repeat in (32, 3, 0, 100):
         rnd = G.Random()
         gen = G.RegexGenerator(rnd, max_repeat=max_repeat)
